@@ -415,6 +415,93 @@ def cdict_reload_coherence(prog, res):
     res.need(R, 5)
 
 
+def ddict_set_rules(prog, res):
+    """Multiple referenced DDicts (ZSTD_d_refMultipleDDicts).
+    (probe-exit) the lookup's probe loop ends only on an EMPTY slot — a NULL table entry, the emptiness test of the
+    inserting sibling — or on the slot whose dictID equals the requested one; a stored DDict whose ID is 0 (raw content)
+    is not an empty slot.
+    (select-before-load) wherever a frame is about to be decoded with a DDict, the set is consulted BEFORE
+    ZSTD_decompressBegin_usingDDict() loads content and tables: selecting afterwards only changes the reference and the
+    expected ID, and the ID check then passes with another dictionary's tables loaded."""
+    R = "T3.ddict-set"
+    g = prog.fn("ZSTD_DDictHashSet_getDDict")
+    e = prog.fn("ZSTD_DDictHashSet_emplaceDDict")
+
+    def slot(fn):
+        def p(a):
+            a = strip_casts(fn.resolve_x(a))
+            if a is not None and a.get("k") == "ref" and a.get("rk") in ("l", "sl"):
+                d = fn.single_def(a["n"])
+                a = strip_casts(fn.resolve_x(d)) if d is not None else a
+            return a is not None and a.get("k") == "idx" and strip_casts(a["b"]).get("f") == "ddictPtrTable"
+        return p
+
+    def zero(a):
+        return const_val(strip_casts(a)) == 0
+    empty_e = guards.rel_edges(e, slot(e), "==", zero) + cond_edges(e, lambda c: c.get("k") != "bin" and slot(e)(c), "false")
+    res.check(bool(empty_e), R, "emplace:empty-slot-is-NULL", e.loc, "insertion probes until a NULL entry", "insertion no longer probes for a NULL entry")
+    empty_g = guards.rel_edges(g, slot(g), "==", zero) + cond_edges(g, lambda c: c.get("k") != "bin" and slot(g)(c), "false")
+    match_g = guards.rel_edges(g, lambda a: "c:ZSTD_getDictID_fromDDict" in g.anchors(a, depth=3), "==",
+                               lambda b: strip_casts(b).get("k") == "ref" and strip_casts(b).get("rk") == "p")
+    rets = [(b, i) for b, i, r in g.returns()]
+    ok = bool(empty_g) and bool(match_g) and bool(rets) and g.must_pass(via_edges=empty_g + match_g, targets=rets)
+    res.check(ok, R, "getDDict:probe-ends-on-NULL-or-match", g.loc,
+              "the probe ends only on a NULL entry (%d edge(s)) or on the requested dictID (%d edge(s))" % (len(empty_g), len(match_g)),
+              "ZSTD_DDictHashSet_getDDict can end its probe on something else than a NULL entry or the requested ID (e.g. any stored DDict "
+              "whose dictID is 0): dictionaries inserted past that slot are never found although they were referenced")
+    # select-before-load
+    reach_lookup = {"ZSTD_DDictHashSet_getDDict"}
+    changed = True
+    callers = prog.callers()
+    while changed:
+        changed = False
+        for nm in list(reach_lookup):
+            for c in callers.get(nm, []):
+                if c.name not in reach_lookup and c.file.endswith("zstd_decompress.c") and c.static:
+                    reach_lookup.add(c.name); changed = True
+    n = 0
+    for f in callers.get("ZSTD_decompressBegin_usingDDict", []):
+        if not f.file.endswith("decompress/zstd_decompress.c"):
+            continue
+        begins = f.call_roots("ZSTD_decompressBegin_usingDDict")
+        # only functions that go on to decode a frame header themselves
+        after = f.flow([(b, i + 1) for b, i in begins])
+        decodes = [t for t in f.call_roots(("ZSTD_decompressFrame", "ZSTD_decompressContinue", "ZSTD_decodeFrameHeader")) if t in after]
+        if not decodes:
+            continue
+        n += 1
+        look = f.find_roots(lambda x: x.get("k") == "call" and x.get("c") in reach_lookup)
+        single = cond_edges(f, lambda c: c.get("k") == "mem" and c["f"] in ("refMultipleDDicts", "ddictSet"), "false")
+        single += guards.rel_edges(f, lambda a: any(y.get("f") == "refMultipleDDicts" for y in f.walk_resolved(a)), "==",
+                                   lambda b: const_val(strip_casts(b)) is not None, truth=False)
+        noddict = cond_edges(f, lambda c: c.get("k") == "ref" and c.get("rk") == "p" and "ZSTD_DDict" in (c.get("t") or ""), "false")
+        # a header that cannot be parsed names no dictionary; the frame is refused by the decoding that follows
+        nohdr = guards.rel_edges(f, lambda a: any(is_call(y, ("ZSTD_getFrameHeader_advanced", "ZSTD_getFrameHeader")) for y in f.walk_resolved(a)),
+                                 "==", lambda b: const_val(strip_casts(b)) == 0, truth=False)
+        # the selection must reach the load: either the DDict argument of the load is re-read from the context after a call that
+        # selects into the context (ZSTD_getDDict(zds) after ZSTD_DCtx_selectFrameDDict), or the variable passed to the load is
+        # assigned from the lookup's result (the not-found edge keeps the caller's DDict)
+        sel = []
+        for b, i in begins:
+            call = [c for bb, ii, c in f.calls("ZSTD_decompressBegin_usingDDict") if (bb, ii) == (b, i)]
+            arg = strip_casts(f.resolve_x(call[0]["a"][1])) if call and len(call[0].get("a", [])) > 1 else None
+            if arg is not None and arg.get("k") == "call":
+                sel += [t for t in look if not any(is_call(y, "ZSTD_DDictHashSet_getDDict") for y in walk(f.blocks[t[0]]["el"][t[1]]))]
+            elif arg is not None and arg.get("k") == "ref":
+                sel += f.find_roots(lambda x: x.get("k") == "asg" and x.get("op") == "=" and strip_casts(x["lhs"]).get("k") == "ref" and
+                                    strip_casts(x["lhs"]).get("n") == arg["n"] and "c:ZSTD_DDictHashSet_getDDict" in f.anchors(x["rhs"], depth=3))
+        notfound = cond_edges(f, lambda c: c.get("k") == "ref" and "c:ZSTD_DDictHashSet_getDDict" in f.anchors(c, depth=3), "false")
+        ok = bool(look) and bool(sel) and f.must_pass(via_roots=sel, via_edges=single + noddict + nohdr + notfound, targets=begins)
+        res.check(ok, R, f.name + ":select-before-load", f.loc,
+                  "every path to ZSTD_decompressBegin_usingDDict consults the DDict set first when several DDicts are referenced",
+                  "%s loads a DDict with ZSTD_decompressBegin_usingDDict on a path that did not consult the set of referenced DDicts: in "
+                  "multi-DDict mode the frame's own dictionary is only *identified* later (ZSTD_decodeFrameHeader), the ID check passes and "
+                  "the frame is decoded with another dictionary's content and tables" % f.name)
+    res.check(n >= 2, R, "select-before-load:sites", "lib/decompress/zstd_decompress.c", "%d decoding entry points load a DDict" % n,
+              "decoding entry points that load a DDict: %d (expected one-shot and streaming)" % n)
+    res.need(R, 5)
+
+
 def run(tier):
     res = Result("C08", tier)
     tus, info = extract(["compress", "common", "decompress", "dictBuilder"])
@@ -429,6 +516,7 @@ def run(tier):
     dict_id(prog, res)
     content_rules(prog, res)
     cdict_reload_coherence(prog, res)
+    ddict_set_rules(prog, res)
     return res.finish(
         explanation="Both entropy loaders read the same tables with the same maxima and limits and refuse the same structural "
                     "faults; `valid` repeat modes are only reachable when the table provably covers every required symbol; "
